@@ -106,8 +106,9 @@ class SumAggregator:
                     and elem.terms[0].symbol.type == SymbolType.Number
                     and elem.terms[0].symbol.number > 0
                 ):
-                    alone = False
-                    continue
+                    # a weight that is not a positive number can compensate other elements:
+                    # the bound then says nothing about how many of them hold
+                    return ret
             else:
                 condition = elem
 
